@@ -292,13 +292,13 @@ func c60(c *Ctx) {
 		return strings.Contains(in.(*ssa.Store).Val.(*ssa.MakeInterface).X.Type().String(), "ipv6.ICMPType")
 	}), fmt.Sprintf("$0 == %d", icmp6))
 	bodyArg := func(in ssa.Instruction) bool {
-		args := in.(*ssa.Call).Call.Args
+		args := BaselineArgs(&in.(*ssa.Call).Call)
 		return Term(args[len(args)-1]) == "$1[4:]"
 	}
 	c.Has(PM, Calls("icmp.parseRawBody").Where("on b[4:]", bodyArg))
 	c.Has(PM, InstrsWhere("registered parser called on b[4:]", func(in ssa.Instruction) bool {
 		call, ok := in.(*ssa.Call)
-		if !ok || call.Call.IsInvoke() || len(call.Call.Args) != 3 {
+		if !ok || call.Call.IsInvoke() || len(BaselineArgs(&call.Call)) != 3 {
 			return false
 		}
 		ex, ok := call.Call.Value.(*ssa.Extract)
@@ -306,7 +306,7 @@ func c60(c *Ctx) {
 			return false
 		}
 		lk, ok := ex.Tuple.(*ssa.Lookup)
-		return ok && Term(lk.X) == "icmp.parseFns" && bodyArg(in) && Term(call.Call.Args[0]) == "$0"
+		return ok && Term(lk.X) == "icmp.parseFns" && bodyArg(in) && Term(BaselineArgs(&call.Call)[0]) == "$0"
 	}))
 
 	// checksum placement in Message.Marshal
@@ -341,7 +341,7 @@ func c60(c *Ctx) {
 				return false
 			}
 			for _, x := range Calls("icmp.checksum").F(c.P, in.Parent()) {
-				if x.(*ssa.Call).Call.Args[0] == sl.X {
+				if BaselineArgs(&x.(*ssa.Call).Call)[0] == sl.X {
 					return true
 				}
 			}
@@ -351,9 +351,9 @@ func c60(c *Ctx) {
 		c.Count(MM, cs, 1, 1)
 		c.NeverAfter(MM, cs, Calls("builtin:append"), false)
 		c.Has(MM, cs.Where("over the buffer that received the body", func(in ssa.Instruction) bool {
-			return DependsOn(in.(*ssa.Call).Call.Args[0], func(v ssa.Value) bool {
+			return DependsOn(BaselineArgs(&in.(*ssa.Call).Call)[0], func(v ssa.Value) bool {
 				call, ok := v.(*ssa.Call)
-				return ok && CalleeName(&call.Call) == "builtin:append" && IsCallTo(".Marshal")(StripConv(extractTuple(call.Call.Args[1])))
+				return ok && CalleeName(&call.Call) == "builtin:append" && IsCallTo(".Marshal")(StripConv(extractTuple(BaselineArgs(&call.Call)[1])))
 			})
 		}))
 		stores := StoresWhere("of a checksum byte", func(st *ssa.Store) bool {
@@ -470,11 +470,11 @@ func c60(c *Ctx) {
 		c.Check(got["v4"] && got["v6"], "codec-layout", pm+": original-datagram length = 4*b[1] for ICMPv4, 8*b[0] for ICMPv6", fn.Pos(), "", fmt.Sprintf("recognised: %v", got))
 	}
 	c.Has(mm, Calls("builtin:copy").Where("data at b[4:]", func(in ssa.Instruction) bool {
-		a := in.(*ssa.Call).Call.Args
+		a := BaselineArgs(&in.(*ssa.Call).Call)
 		return strings.HasSuffix(Term(a[0]), "[4:]") && Term(a[1]) == "$2"
 	}))
 	c.Has(pm, Calls("builtin:copy").Where("data from b[4:]", func(in ssa.Instruction) bool {
-		return Term(in.(*ssa.Call).Call.Args[1]) == "$2[4:]"
+		return Term(BaselineArgs(&in.(*ssa.Call).Call)[1]) == "$2[4:]"
 	}))
 	c.Has(pm, Calls("icmp.parseExtensions").ArgIs(0, "$1").ArgIs(1, "$2[4:]"))
 	ev, _ := c.P.ConstInt("icmp.extensionVersion")
@@ -501,7 +501,7 @@ func c60(c *Ctx) {
 			mm+": extension header = version<<4 at 4+dataLen, checksum low/high at +2/+3", fn.Pos(), "", fmt.Sprintf("recognised writes: %v", got))
 		cs := Calls("icmp.checksum")
 		c.Has(mm, cs.Where("over b[4+dataLen:]", func(in ssa.Instruction) bool {
-			sl, ok := in.(*ssa.Call).Call.Args[0].(*ssa.Slice)
+			sl, ok := BaselineArgs(&in.(*ssa.Call).Call)[0].(*ssa.Slice)
 			return ok && sl.High == nil && sl.Low != nil && Linearize(sl.Low).String() == dl+"+4"
 		}))
 		c.NeverAfter(mm, cs, Union(Calls("(*icmp.MPLSLabelStack).marshal"), Calls("(*icmp.InterfaceInfo).marshal"), Calls("(*icmp.InterfaceIdent).marshal"), Calls("builtin:copy")), false)
@@ -600,7 +600,7 @@ func c60(c *Ctx) {
 			}
 		}
 		for _, in := range Calls("builtin:append").F(c.P, fn) {
-			if es, ok := VarArgElems(in.(*ssa.Call).Call.Args[1]); ok {
+			if es, ok := VarArgElems(BaselineArgs(&in.(*ssa.Call).Call)[1]); ok {
 				for _, e := range es {
 					if mi, ok := e.(*ssa.MakeInterface); ok {
 						extProduced[Short(mi.X.Type().String())] = true
